@@ -22,6 +22,7 @@ GoodHs == <<
 
 (* malformed, self-contained (consistent hl): bad wherever they stand *)
 BadAnywhere == <<
+  <<1, 0, 0, 41, 3, 3>> \o Fill(5, 32) \o <<0, 0, 3, 0, 47, 0, 1, 0>>,   \* ClientHello with an odd, in-bounds cipher list
   <<99, 0, 0, 1, 5>>,            \* unknown handshake type
   <<2, 0, 0, 2, 9, 9>>,          \* ServerHello, unsupported version: Tag
   <<1, 0, 0, 2, 3, 3>>,          \* ClientHello cut off by its declared length
@@ -93,7 +94,19 @@ OtherSpecs ==
   \cup { [ct |-> ct, payload |-> pl, want |-> <<>>, wantp |-> 0, clean |-> FALSE, kind |-> "unknownct"]
          : ct \in {0, 19, 25, 255}, pl \in {<<>>, <<1, 0, 0, 0, 0>>} }
 
-SpecsDef == SetToSeq(HsSpecs
+(* records packed with minimum-size messages up to the record-length cap (the count, not any length field, is extreme) *)
+RepMsg(m, n) == [j \in 1..n |-> m]
+CountSpecs == {
+  [ct |-> 22, payload |-> Concat(RepMsg(<<0, 0, 0, 0>>, 4159)) \o <<14, 0, 0, 0>>,
+   want |-> RepMsg([t |-> "hs", m |-> [t |-> "HelloRequest"]], 4159) \o <<[t |-> "hs", m |-> [t |-> "ServerDone", data |-> <<>>]]>>,
+   wantp |-> 16640, clean |-> TRUE, kind |-> "count"],
+  [ct |-> 21, payload |-> Concat(RepMsg(<<1, 0>>, 8319)) \o <<2, 40>>,
+   want |-> RepMsg([t |-> "alert", sev |-> 1, code |-> 0], 8319) \o <<[t |-> "alert", sev |-> 2, code |-> 40]>>,
+   wantp |-> 16640, clean |-> TRUE, kind |-> "count"],
+  [ct |-> 20, payload |-> [j \in 1..16640 |-> 1], want |-> RepMsg([t |-> "ccs"], 16640), wantp |-> 16640, clean |-> TRUE, kind |-> "count"],
+  [ct |-> 22, payload |-> Concat(RepMsg(<<0, 0, 0, 0>>, 4097)), want |-> RepMsg([t |-> "hs", m |-> [t |-> "HelloRequest"]], 4097),
+   wantp |-> 16388, clean |-> TRUE, kind |-> "count"] }
+SpecsDef == SetToSeq(HsSpecs \cup CountSpecs
                   \cup ListSpecs(21, AlertItems, 3, {<<>>, <<1>>})
                   \cup ListSpecs(20, CcsItems, 3, {<<>>})
                   \cup HbSpecs \cup AppSpecs \cup OtherSpecs)
